@@ -181,3 +181,23 @@ Definition C07_seamless_target_nu_full : Prop :=
                (snd res = JNil ->
                   (exists D1 D2, from_num start merged = D1 ++ D2 /\ rev (cs_stack c') = D1) \/
                   from_num start (rev (cs_stack c')) = from_num start canon).
+
+(* ... in the form of C07_seamless_target (Spec/C07_Compose_Spec.v): default filter, no stop block *)
+Definition C07_seamless_target_full : Prop :=
+  forall (U : list block) (c : jcfg) (w : world) (ps : list (N * N)) (merged_end : N) (canon forked : list block)
+         (cu : cursor) (B : block),
+    wf_b U = true -> lib_ok_b LNone U = true ->
+    hub_of_universe U c w ->
+    chain_ok canon -> incl canon U ->
+    let merged := filter (fun b => bnum b <? merged_end) canon in
+    eventual_tip c w canon ->
+    j_mode c = 2 -> j_cursor c = Some cu -> j_filter c = 0 -> j_stop c = 0 ->
+    0 < j_bundle c -> Forall (fun b => bnum b < file_bound) merged ->
+    In B canon -> bref B = cu_blk cu -> cursor_lib_on canon cu B ->
+    let res := stream_run c w ps merged_end merged forked in
+    let start := run_start c w in
+    (exists b, In b canon /\ bnum b = start) ->
+    exists c', cons_fold_aside cons0 (map as_new (fst res)) = Some c' /\
+               (snd res = JNil ->
+                  (exists D1 D2, from_num start merged = D1 ++ D2 /\ rev (cs_stack c') = D1) \/
+                  from_num start (rev (cs_stack c')) = from_num start canon).
